@@ -322,6 +322,10 @@ func (c18) Gen(rng *rand.Rand, tier string, i int) *sim.Scenario {
 			hops = append(hops, h)
 		}
 		c := sim.Call{Entry: "enrich", Target: pick(rng, pool...), Hops: hops}
+		for n := pick(rng, 0, 0, 1, 2); n > 0; n-- {
+			// more runs in the document, each towards its own destination address
+			c.Addrs = append(c.Addrs, pick(rng, pool...))
+		}
 		sc.Calls = []sim.Call{c}
 		for _, a := range pool {
 			sc.DNS = append(sc.DNS, sim.DNSPlan{Addr: dnsKey(mustParse(a)), Script: []string{pick(rng, "names:1", "names:2", "names:3", "dupnames:1", "dupnames:2", "empty", dnsErr(rng), "slow:200000:1", "slow:6000000:1", "stall"), pick(rng, "names:1", dnsErr(rng))}})
@@ -497,6 +501,18 @@ func (c18) Check(out *sim.Outcome, ri *RunInfo) []Violation {
 		}
 		if cs.C.Target != "" {
 			checkNames("destination", mustParse(cs.C.Target), run.Destination.ReverseDns)
+		}
+		for k, d := range cs.C.Addrs {
+			if k+1 < len(cs.Enriched.Traceroute.Runs) {
+				ri.probe("several-runs-in-document")
+				r2 := cs.Enriched.Traceroute.Runs[k+1]
+				checkNames(fmt.Sprintf("destination of run %d", k+2), mustParse(d), r2.Destination.ReverseDns)
+				for j, h := range r2.Hops {
+					if j < len(cs.C.Hops) && cs.C.Hops[j].Addr != "" {
+						checkNames(fmt.Sprintf("run %d hop ttl %d", k+2, h.TTL), mustParse(cs.C.Hops[j].Addr), h.ReverseDns)
+					}
+				}
+			}
 		}
 	case "cache-dns", "cache-ip":
 		ttl := time.Hour
